@@ -60,12 +60,12 @@ theorem Covered.eq {m cm term : Nat} {g g' : LLog} (hc : Covered h c0 m cm term 
   · exact .inl c
   · exact .inr ⟨E, h1, h2, h3, h4, he.trans h5⟩
 
-theorem scm_step (H : Hyp3 cfg c0 h) {n : Nat} (S : SAll h c0 n) {a b : Sys}
+theorem scm_step (H : Hyp3a cfg c0 h) {n : Nat} (S : SAll h c0 n) {a b : Sys}
     (ha : h[n]? = some a) (hb : h[n + 1]? = some b) :
     ∀ v st', b.node v = some st' →
       st'.raft.raftLog.store.hardState.commit ≤ st'.raft.raftLog.committed := by
   intro v st' hvb
-  have H2 := H.toHyp2
+  have H2 := H.toHyp2w
   have Sa := S n a (Nat.le_refl _) ha
   obtain ⟨k, stk, stk', hka, hkb, hoth, hs⟩ := stp_of H2 ha hb
   by_cases hvk : v = k
@@ -94,13 +94,13 @@ theorem scm_step (H : Hyp3 cfg c0 h) {n : Nat} (S : SAll h c0 n) {a b : Sys}
   · have hva : a.node v = some st' := by rw [← hoth v hvk]; exact hvb
     exact Sa.scm v st' hva
 
-theorem ncts_step (H : Hyp3 cfg c0 h) {n : Nat} (S : SAll h c0 n) {a b : Sys}
+theorem ncts_step (H : Hyp3a cfg c0 h) {n : Nat} (S : SAll h c0 n) {a b : Sys}
     (ha : h[n]? = some a) (hb : h[n + 1]? = some b) :
     ∀ v st', b.node v = some st' →
       Covered h c0 (n + 1) st'.raft.raftLog.store.hardState.commit
         st'.raft.raftLog.store.hardState.term (storeLog st'.raft.raftLog.store) := by
   intro v st' hvb
-  have H2 := H.toHyp2
+  have H2 := H.toHyp2w
   have Sa := S n a (Nat.le_refl _) ha
   obtain ⟨k, stk, stk', hka, hkb, hoth, hs⟩ := stp_of H2 ha hb
   by_cases hvk : v = k
